@@ -80,10 +80,19 @@ type world struct {
 	processed  int       // variant of the text file the handler last wrote
 	tWritten   time.Time // fake time of that write
 	graceUntil time.Time // text files came back just before: render errors are not judged until then
-	held       []int     // variants the text file has held since c was built
-	lastEdit   time.Time
-	pending    bool // the file was edited after the handler last looked
-	trace      []string
+	// a save that is handled while the running program is in the middle of loading a text file:
+	// at the renderMid-th disk call of the render in progress the file is saved as renderMidVar
+	// and the handler deals with it there and then
+	rendering      bool
+	renderMid      int
+	renderMidVar   int
+	rosCalls       int
+	needRebuild    bool
+	savedMidRender bool
+	held           []int // variants the text file has held since c was built
+	lastEdit       time.Time
+	pending        bool // the file was edited after the handler last looked
+	trace          []string
 	// the simulated source file: it lives at the compiled variant's compile-time path and
 	// exists only in this run's model (simos overlay), so parallel worker processes do not collide
 	filePath    string
@@ -222,6 +231,21 @@ func (w *world) writeSource(v int, content string) {
 // watch hands the real handler an event for the source file.
 // onOSCall is the disk seam of the handler: the editor may save right here.
 func (w *world) onOSCall(op, path string) {
+	if w.rendering && w.renderMid >= 0 && strings.HasPrefix(path, os.Getenv("TEMPL_DEV_MODE_ROOT")) {
+		w.rosCalls++
+		if w.rosCalls-1 == w.renderMid {
+			w.renderMid, w.rendering = -1, false
+			j := w.renderMidVar
+			w.note("save of v%d handled while the program is loading its text file (at its disk call #%d, %s)", j, w.rosCalls-1, op)
+			w.writeSource(j, w.fam.Variants[j].Source)
+			if r, err := w.watch(); err == nil && r.GoUpdated {
+				w.needRebuild = true
+			}
+			w.k.Count("fault_save_handled_while_program_loads_text_file", 1)
+			w.rendering, w.savedMidRender = true, true
+		}
+		return
+	}
 	if w.midAt >= 0 {
 		w.osCalls++
 		if w.osCalls-1 == w.midAt {
@@ -310,7 +334,17 @@ func (w *world) check(when string) {
 	rc := w.rc
 	since := time.Since(w.tWritten)
 	for ai, a := range argsets {
+		w.rendering, w.rosCalls, w.savedMidRender = true, 0, false
 		got, err := render(w.fam.Variants[w.c].Comp, a, true)
+		w.rendering = false
+		if w.savedMidRender {
+			// the file was saved and handled while this render was under way: what it shows is
+			// not judged (old or new text are both fine), what later renders show is
+			if err != nil && !w.needRebuild {
+				rc.Fail("C16/dev-render-error", "%s %s: dev-mode render of compiled v%d failed while a save was being handled: %v\n trace: %s", w.fam.Name, when, w.c, err, strings.Join(w.trace, "\n  "))
+			}
+			return
+		}
 		if err != nil && time.Now().Before(w.graceUntil) {
 			// the text files have only just come back: an error now is not judged
 			w.k.Count("probe_render_error_right_after_files_came_back", 1)
@@ -447,7 +481,16 @@ func (w *world) run() {
 				continue
 			}
 			w.note("render")
+			w.renderMid = -1
+			if !w.useLoop && t.Chance(1, 4, "save-during-load") {
+				w.renderMid, w.renderMidVar = t.Choose(4, "load-call"), t.Choose(len(w.fam.Variants), "load-var")
+			}
 			w.check("render")
+			w.renderMid = -1
+			if w.needRebuild {
+				w.needRebuild = false
+				w.rebuild()
+			}
 		case 4:
 			w.note("restart app")
 			w.coldCache()
@@ -569,7 +612,7 @@ func simWorld(rc *kernel.RunCtx) {
 		return
 	}
 	os.Setenv("TEMPL_DEV_MODE_ROOT", root)
-	w := &world{rc: rc, k: k, t: t, fam: families[t.Choose(len(families), "family")], midAt: -1, readVar: -2}
+	w := &world{rc: rc, k: k, t: t, fam: families[t.Choose(len(families), "family")], midAt: -1, readVar: -2, renderMid: -1}
 	var simDur time.Duration
 	esc := kernel.Bubble(rc.TB, func() {
 		simos.SetHook(&simos.HookT{Now: time.Now, Before: func(op, path string) simos.Fault { w.onOSCall(op, path); return simos.Fault{} }, Overlay: func(p string) ([]byte, time.Time, bool) {
